@@ -88,6 +88,7 @@ func nativeReplay(s *Spec, prog *ssa.Program, es EntrySpec, file string, entries
 	if err != nil {
 		return replayOutcome{Err: err.Error()}
 	}
+	instrumentFS = s.InstrumentFS
 	for _, rel := range s.Instrument {
 		src, err := instrumentFile(loadedPkgs, rel)
 		if err != nil {
